@@ -1,6 +1,9 @@
 pub mod c02;
+pub mod c03;
 pub mod c04;
 pub mod c05;
+pub mod c06;
+pub mod c16;
 pub mod c20;
 
 use crate::Entry;
@@ -11,5 +14,9 @@ pub fn all() -> Vec<Entry> {
         Entry { scn: &c05::C05Bucket, quick_runs: 60_000, thorough_runs: 3_000_000 },
         Entry { scn: &c04::C04Handles, quick_runs: 60_000, thorough_runs: 3_000_000 },
         Entry { scn: &c20::C20Recoverable, quick_runs: 60_000, thorough_runs: 3_000_000 },
+        Entry { scn: &c16::C16Reservoir, quick_runs: 60_000, thorough_runs: 3_000_000 },
+        Entry { scn: &c16::C16Uniformity, quick_runs: 48, thorough_runs: 600 },
+        Entry { scn: &c06::C06Registry, quick_runs: 20_000, thorough_runs: 3_000_000 },
+        Entry { scn: &c03::C03Key, quick_runs: 60_000, thorough_runs: 3_000_000 },
     ]
 }
